@@ -213,8 +213,8 @@ func (fx *FuncExec) addFact(reach, f *Term) {
 		return
 	}
 	t := fx.ts.Implies(reach, f)
-	if t.isTrue() {
-		return
+	if t.isTrue() || t.bound {
+		return // (facts about terms under a quantifier cannot be stated at top level)
 	}
 	if fx.factSeen[t.id] {
 		return
